@@ -1,7 +1,7 @@
 (** C17 — obligations over the facts regenerated from /repo (Gen/C17Facts.v). *)
 From Coq Require Import List Bool ZArith String.
 Import ListNotations.
-Require Import Nib.C17.AnteFacts Nib.C17.MsgTree Nib.C17.Model Nib.C17.Spec Nib.C17.Proofs Nib.C17.Property.
+Require Import Nib.C17.AnteFacts Nib.C17.CarrierTree Nib.C17.Model Nib.C17.Spec Nib.C17.Proofs Nib.C17.Property.
 Require Import Nib.Gen.C17Facts Nib.C17.Current Nib.C17.IcaList.
 
 (** The commission decorator is installed in the non-EVM ante chain (every decorator of the chain runs
@@ -25,6 +25,14 @@ Proof.
     apply C17_cfg_checker_sound; [exact C17_current_cfg_ok|exact C17_current_genesis_cfg_ok].
 Qed.
 Print Assumptions C17_holds_from_genesis_on_current_tree.
+
+(** The message carriers of the LINKED application (enumerated at run time from the interface registry and the msg
+    service router): every routed sdk.Msg type with an Any field accepting an sdk.Msg / a []sdk.Msg accessor is one the
+    model has a dispatch rule for (authz MsgExec, gov v1 MsgSubmitProposal; MsgEthereumTx.GetMsgs returns itself), no
+    routed type hides an Any from its UnpackInterfaces except the known deprecated one, and x/group is not routed. *)
+Theorem C17_current_carriers_known :
+  carriers_all_known routed_msg_carriers routed_opaque_any = true /\ mem URL_GROUP_SUBMIT routed_msg_carriers = false.
+Proof. vm_compute. split; reflexivity. Qed.
 
 (** Routing by extension option: none -> non-EVM chain, the EVM option -> EVM chain, anything else -> reject. *)
 Theorem C17_current_routing :
